@@ -14,6 +14,8 @@ Require Import Kawin.C09.Model.
 Import ListNotations.
 
 Ltac csimpl := cbn [df_cs mat_cs pts diff_cs curv_cs curv_out set_pts set_df set_mat set_diff set_curv set_curv_out clear_cache fst snd].
+Tactic Notation "csimpl" "in" hyp(H) :=
+  cbn [df_cs mat_cs pts diff_cs curv_cs curv_out set_pts set_df set_mat set_diff set_curv set_curv_out clear_cache fst snd] in H.
 
 Section ThermoProofs.
   Variables X Tm G Y Res Smp Val : Type.
@@ -458,6 +460,82 @@ Section ThermoProofs.
     destruct (local_eq [0%nat] (cond_x x T g0) (mat_cs (set_df s (aset p (Some [cm; cp]) (df_cs s))))) as [res mcs].
     simpl in HP. pose proof (wf_set_mat Approx _ mcs W0 HP) as W1.
     destruct (is_nan res); [exact W1 | apply wf_reset; exact W1].
+  Qed.
+
+  (* ---- what is cached per temperature is keyed by the EXACT temperature ---- *)
+  (* the sampled driving force at T is evaluated on the samples of T, and the samples left in the cache are those of T,
+     whatever temperature (equal, close or far) the cache held before *)
+  Lemma prec_sample_cache m (s : tstate) T mu p : wf m s ->
+    aget p (pts (fst (prec_sample s T mu p))) = Some (T, sample p T).
+  Proof.
+    intros W. unfold Model.prec_sample.
+    destruct (aget p (pts s)) as [[T' sm]|] eqn:A.
+    - destruct (Tm_eqb T' T) eqn:E.
+      + apply Tm_eqb_spec in E. subst T'. destruct (best sm mu). cbn [fst]. rewrite A.
+        rewrite (wf_pts _ _ W _ _ _ A). reflexivity.
+      + destruct (best (sample p T) mu). csimpl. rewrite aget_aset, Nat.eqb_refl. reflexivity.
+    - destruct (best (sample p T) mu). csimpl. rewrite aget_aset, Nat.eqb_refl. reflexivity.
+  Qed.
+
+  (* frame of the sampling step, no hypothesis *)
+  Lemma prec_sample_frame (s : tstate) T mu p :
+    df_cs (fst (prec_sample s T mu p)) = df_cs s /\ mat_cs (fst (prec_sample s T mu p)) = mat_cs s.
+  Proof.
+    unfold Model.prec_sample.
+    destruct (aget p (pts s)) as [[T' sm]|]; [destruct (Tm_eqb T' T)|]; destruct (best _ mu); split; reflexivity.
+  Qed.
+
+  Lemma df_sampling_df_cs (s : tstate) x T p : df_cs (fst (df_sampling s x T p false)) = df_cs s.
+  Proof.
+    unfold Model.df_sampling.
+    destruct (local_eq [0%nat] (cond_x x T g0) (mat_cs s)) as [res mcs].
+    destruct (is_nan res); [reflexivity|].
+    pose proof (prec_sample_frame (set_mat s (Some mcs)) T res p) as [F _].
+    destruct (prec_sample (set_mat s (Some mcs)) T res p) as [s2 [dg pcs]]. cbn [fst] in *.
+    unfold reset_df. exact F.
+  Qed.
+
+  (* a precipitate composition set that stays cached after an answered tangent query (cached equilibria kept) is never one
+     that this query found collapsed onto the matrix composition: such a set is dropped before falling back on sampling *)
+  Lemma tangent_never_caches_collapsed (s s' : tstate) x T p v c0 rest mcs :
+    df_tangent s x T p false = (s', Some v) ->
+    aget p (df_cs s') = Some (c0 :: rest) -> mat_cs s' = Some mcs ->
+    same_comp c0 mcs = false.
+  Proof.
+    unfold Model.df_tangent.
+    destruct (local_eq [0%nat] (cond_x x T g0) (mat_cs s)) as [res mcs0].
+    destruct (is_nan res); [intros H; inversion H|].
+    set (s1 := set_mat s (Some mcs0)).
+    assert (F2 : forall u start,
+               match aget p (df_cs s1) with
+               | Some l => (s1, l)
+               | None => let '(s'0, (_, pcs)) := prec_sample s1 T res p in
+                         (set_df s'0 (aset p (Some [pcs]) (df_cs s'0)), [pcs])
+               end = (u, start) -> mat_cs u = Some mcs0).
+    { intros u start. destruct (aget p (df_cs s1)) as [l|].
+      - intros H; inversion H; subst. reflexivity.
+      - pose proof (prec_sample_frame s1 T res p) as [_ Fm].
+        destruct (prec_sample s1 T res p) as [u' [dg pcs]]. cbn [fst] in Fm.
+        intros H; inversion H; subst. csimpl. rewrite Fm. reflexivity. }
+    destruct (match aget p (df_cs s1) with
+              | Some l => (s1, l)
+              | None => let '(s'0, (_, pcs)) := prec_sample s1 T res p in
+                        (set_df s'0 (aset p (Some [pcs]) (df_cs s'0)), [pcs])
+              end) as [s2 start] eqn:E2.
+    specialize (F2 s2 start eq_refl).
+    destruct (local_eq [p] (cond_mu res T) (Some start)) as [pres pcs].
+    destruct (is_nan pres); [intros H; inversion H|].
+    destruct pcs as [|c1 r]; [intros H; inversion H|].
+    destruct (same_comp c1 mcs0) eqn:SC.
+    - (* collapsed: the set is dropped, then sampling *)
+      intros H A _.
+      assert (Es : s' = fst (df_sampling (set_df (set_df s2 (aset p (Some (c1 :: r)) (df_cs s2)))
+                                                  (aset p None (df_cs (set_df s2 (aset p (Some (c1 :: r)) (df_cs s2)))))) x T p false))
+        by (rewrite H; reflexivity).
+      rewrite Es, df_sampling_df_cs in A. csimpl in A. rewrite aget_aset, Nat.eqb_refl in A. discriminate.
+    - unfold reset_df. intros H A M. apply (f_equal fst) in H. cbn [fst] in H. subst s'. csimpl in A. csimpl in M.
+      rewrite aget_aset, Nat.eqb_refl in A. inversion A; subst.
+      rewrite F2 in M. inversion M; subst. exact SC.
   Qed.
 
   (* ---- curvature factors ---- *)
